@@ -1248,6 +1248,11 @@ def run(ctx):
                 for takes in (0.3, 2.5, 7.0):  # shorter and (much) longer than the ping interval of 1 s
                     asgi_scenario(ctx, cls, n_items, idl, 0, td, 1.0, None, True, cleanup_takes=takes)
                     ctx.case_enum(True)
+        # ping intervals that are not whole seconds: the interval asked for is the interval that bounds the return
+        for ping in (0.2, 0.5, 1.6, 2.5, 0.05):
+            for n_items, idl, td in ((2, 30.0, 0.01), (2, 30.0, ping * 3.3), (3, ping * 2.5, ping * 4.2)):
+                asgi_scenario(ctx, "SendEventResponse", n_items, idl, 0, td, ping, None, True)
+                ctx.case_enum(True)
         for n_items, idl, td in ((3, 0.4, None), (6, 1.5, None), (5, 0.2, 0.7), (2, 3.0, None)):
             asgi_scenario(ctx, "SendEventResponse", n_items, idl, 0, td, 1.0, None, True, same_object=True)
             ctx.case_enum(True)
